@@ -1,7 +1,8 @@
 """C17 — derived syntax kinds convert safely and invertibly."""
 from .runner import Property
 from .core import Rng
-from . import rustc_batch as RB
+import os, subprocess
+from . import rustc_batch as RB, core
 from .treefmt import parse_text, show_text
 
 TEXTS = ["43", "", "108.101.116", "233", "34.92", "43"]          # "+", "", "let", "é", "\"\\", "+" (duplicates across variants are fine)
@@ -152,23 +153,41 @@ class C17(Property):
             src.append("fn show<S: Syntax + std::panic::UnwindSafe + 'static>(idx: usize, variants: &[S]) {")
             src.append("    let n = variants.len() as u32;")
             src.append('    let raws: Vec<String> = variants.iter().map(|v| v.into_raw().0.to_string()).collect();')
-            src.append('    let froms: Vec<String> = (0..n + 3).map(|r| match catch_unwind(move || S::from_raw(RawSyntaxKind(r)).into_raw().0) { Ok(x) => x.to_string(), Err(_) => "P".to_string() }).collect();')
+            src.append('    let froms: Vec<String> = (0..n + 3).map(|r| { if probe_log() { println!("{idx} PROBE from_raw({r})"); } match catch_unwind(move || S::from_raw(RawSyntaxKind(r)).into_raw().0) { Ok(x) => x.to_string(), Err(_) => "P".to_string() } }).collect();')
             src.append('    let texts: Vec<String> = variants.iter().map(|v| match v.static_text() { Some(t) => format!("={}", t.chars().map(|c| (c as u32).to_string()).collect::<Vec<_>>().join(".")), None => "-".to_string() }).collect();')
             src.append('    println!("{idx} ACCEPT n={n} raw={} from={} texts={}", raws.join(","), froms.join(","), texts.join(";"));')
             src.append("}")
+            # `c17_run` runs every enum; `c17_run <idx>` runs one and logs each probe (used when the whole run dies:
+            # an out-of-range from_raw that is not rejected is undefined behaviour and usually aborts the process)
+            src.append("fn probe_log() -> bool { std::env::args().count() > 1 }")
             src.append("fn main() {")
             src.append("    std::panic::set_hook(Box::new(|_| {}));")
+            src.append("    let only: Option<usize> = std::env::args().nth(1).map(|a| a.parse().unwrap());")
             for i in accepted:
                 n = len([x for x in cases[i].split(" ")[4:] if x])
-                src.append("    show::<d%d::E>(%d, &[%s]);" % (i, i, ", ".join("d%d::E::V%d" % (i, j) for j in range(n))))
+                src.append("    if only.map_or(true, |o| o == %d) { show::<d%d::E>(%d, &[%s]); }" % (i, i, i, ", ".join("d%d::E::V%d" % (i, j) for j in range(n))))
             src.append("}")
             d2 = RB.write_crate("c17_run", "bin", "\n".join(src) + "\n")
-            rc, out, err = RB.cargo(d2, ["run", "--quiet"])
+            rc, out, err = RB.cargo(d2, ["build", "--quiet"])
             if rc != 0:
                 return ["RUN-BUILD-FAILED " + err[-300:].replace("\n", " ")] * len(cases)
-            for l in out.splitlines():
+            exe = os.path.join(core.WORK, "rustc_batch_target", "debug", "c17_run")
+            p = subprocess.run([exe], stdout=subprocess.PIPE, stderr=subprocess.DEVNULL, text=True, errors="replace", timeout=600)
+            for l in p.stdout.splitlines():
                 idx, rest = l.split(" ", 1)
                 results[int(idx)] = rest
+            if p.returncode != 0:
+                for i in accepted:
+                    if i in results:
+                        continue
+                    q = subprocess.run([exe, str(i)], stdout=subprocess.PIPE, stderr=subprocess.DEVNULL, text=True, errors="replace", timeout=600)
+                    lines = q.stdout.splitlines()
+                    done = [l for l in lines if " ACCEPT " in l]
+                    if q.returncode == 0 and done:
+                        results[i] = done[0].split(" ", 1)[1]
+                    else:
+                        last = [l for l in lines if " PROBE " in l]
+                        results[i] = "ABORT exit=%d at %s" % (q.returncode, last[-1].split(" PROBE ")[1] if last else "start")
         return [results.get(i, "REJECT") if i not in rejected else "REJECT" for i in range(len(cases))]
 
     def spec(self, case, impl):
